@@ -91,6 +91,11 @@ CLAIMED = {
    text="TLC enumerates every interleaving of the gate points of 2-3 workers (K = 2-4) and checks Ownership on the model; each schedule (sampled above a cap) is replayed: the workers' pipelines (parse, print, dump, resolve) run on their own goroutines and are stepped through the hook inside Parser.Lex or a gating writer in exactly that order; each worker's tree fingerprint, errors, printed text, dump and resolved names must equal its solo results. The same pipelines then run un-gated on 16 goroutines in a -race build (halt on first report); data races, panics, deviations from the sequential results and differences between two parses of the same input are violations.",
    note="Trusted: Go race detector, the gate implementation (concurrent.go). Lost-update corruption shows deterministically under gating; unsynchronised access under -race. Schedules are sampled when numerous.",
    design="5 (C11), 3.8"),
+ "C17": dict(
+   technique="Pipeline.tla with the Format action (TLC: structure kept, layout canonical and idempotent) + replay of parse -> format -> print -> parse -> format -> print on the real code for SyntaxGen.tla derivations under several layouts",
+   text="The specification says Format changes only the layout, to a canonical one, idempotently. Each generated program (both families) is rendered under 2 (quick) / 5 (thorough) layouts and pushed through the real pipeline: a formatter panic or hang, formatted text that does not parse, a changed structural projection, different formatted text for two layouts of the same derivation, or a second formatting that changes the text are violations. Known formatter defects are matched by (failure class, trigger pattern).",
+   note="Trusted: structural fingerprint; trigger classification in vf/c17.py. Three known findings (unfinished formatter), four repaired defects.",
+   design="5 (C17), 3.8"),
 }
 
 REASONS_PENDING = "check not built yet in this round; see DESIGN.md section 9 for the construction order"
